@@ -142,6 +142,31 @@ func c18ExprExec(c *mon.Case) {
 			c.Failf("calculator rejects what the parser accepts", "source=%q: %v %v", src, pn, err)
 			return
 		}
+		// the public CreateVariables on a collection of the caller's own (with one of the names already there in another
+		// letter case), whatever the calculator's default collection holds, with automatic variables on and off
+		for _, auto := range []bool{true, false} {
+			c2 := calculator.NewExpressionCalculator()
+			c2.SetAutoVariables(auto)
+			if pn := mon.Try(func() { err = c2.SetExpression(src) }); pn != nil || err != nil {
+				c.Failf("calculator rejects what the parser accepts", "source=%q: %v %v", src, pn, err)
+				return
+			}
+			own := variables.NewVariableCollection()
+			own.Add(variables.NewVariable("kept_entry", variants.VariantFromInteger(5)))
+			if len(want) > 0 && len(want[0]) == len([]rune(want[0])) { // ASCII names only: other letters may have more than one lower-case form
+				own.Add(variables.NewVariable(strings.ToLower(want[0]), variants.VariantFromInteger(6)))
+			}
+			c2.CreateVariables(own)
+			var on []string
+			for _, v := range own.GetAll() {
+				on = append(on, v.Name())
+			}
+			wantOwn := dedupeCI(append([]string{"kept_entry"}, want...))
+			if got := dedupeCI(on); len(on) != len(got) || len(got) != len(wantOwn) || own.Get(0).Name() != "kept_entry" || snap(own.Get(0).Value()).String() != "int(5)" {
+				c.Failf("CreateVariables on the caller's own collection does not leave exactly one entry per name, keeping earlier entries", "source=%q automatic variables=%v: the collection holds %q, expression names %q", src, auto, on, want)
+				return
+			}
+		}
 		all := calc.DefaultVariables().GetAll()
 		var dv []string
 		for _, v := range all {
